@@ -771,6 +771,25 @@ static URI_INLINE int URI_FUNC(NormalizeSyntaxEngine)(URI_TYPE(Uri) * uri,
 			while (walker != NULL) {
 				if (!URI_FUNC(FixPercentEncodingMalloc)(&(walker->text.first),
 						&(walker->text.afterLast), memory)) {
+					/* Free the copies made so far and kill the path: the segments
+					 * before walker own their text by now, those from walker on do not */
+					URI_TYPE(PathSegment) * ranger = uri->pathHead;
+					while (ranger != walker) {
+						URI_TYPE(PathSegment) * const next = ranger->next;
+						if (ranger->text.afterLast > ranger->text.first) {
+							memory->free(memory, (URI_CHAR *)ranger->text.first);
+						}
+						memory->free(memory, ranger);
+						ranger = next;
+					}
+					while (ranger != NULL) {
+						URI_TYPE(PathSegment) * const next = ranger->next;
+						memory->free(memory, ranger);
+						ranger = next;
+					}
+					uri->pathHead = NULL;
+					uri->pathTail = NULL;
+
 					URI_FUNC(PreventLeakage)(uri, doneMask, memory);
 					return URI_ERROR_MALLOC;
 				}
